@@ -1106,6 +1106,17 @@ def shrink_candidates(cur):
         c = copy.deepcopy(cur)
         del c["spec"][i]
         cands.append(c)
+    if cur.get("kind") == "hist":
+        # dropping a model keeps a history valid only if no operation addresses the group by position
+        positional = {op["group"] for op in cur["ops"] if op["op"] in ("enable", "models", "insert")}
+        for i, (k, ms) in enumerate(spec):
+            if k in positional:
+                continue
+            for j in range(len(ms or [])):
+                if len(ms) > 1:
+                    c = copy.deepcopy(cur)
+                    del c["spec"][i][1][j]
+                    cands.append(c)
     if cur.get("kind") != "hist":
         for i, (k, ms) in enumerate(spec):
             for j in range(len(ms or [])):
